@@ -180,6 +180,21 @@ def shard(col, shard_i, ngrammars, ninputs, exhaustive_len):
             names = [n for n, _, _ in g['rules'] if n not in ('start', 'term', 'factor')]
             semspec = ('none', {n: rng.choice(['wrap', 'wrap', 'tag', 'identity']) for n in names if rng.random() < 0.8})
             col.count('semantics.' + '+'.join(sorted(set(semspec[1].values())) or ['none']))
+        if kind in ('prefix2', 'direct', 'direct2', 'layered', 'aliased') and 'paren' not in kind and "'('" in E.grammar_text(g):
+            # many seeds alive at once on ONE line: deeply nested parentheses around chains (seeds must not be evicted / capped)
+            for depth in (4, 6, 9):
+                inner = '1'
+                for d in range(depth):
+                    inner = f'({inner}{rng.choice(["+", "-", "*"])}{d % 3 + 1})'
+                texts = texts + [inner, inner + rng.choice(['+2', '-x', '!', '+']), f'{inner}+{inner}']
+        if kind == 'selector':
+            o1 = [x[1] for x in E.walk(dict((n, e) for n, _, e in g['rules'])['sum']) if E.kind(x) == 'tok'][0]
+            o2 = [x[1] for x in E.walk(dict((n, e) for n, _, e in g['rules'])['term']) if E.kind(x) == 'tok'][0]
+            for depth in (1, 2, 3, 5):
+                inner = '1'
+                for d in range(depth):
+                    inner = f'({inner}{o1}{d + 2}){o2}({d}{o1}x)'
+                texts = texts + [f'a[{inner}]', f'a[{inner}:5]', f'a[{inner}:{inner}]', f'a.b[{inner}:1].c', f'a[{inner}', f'a[{inner}:]', f'a[1][{inner}:2]']
         for t in texts:
             cases.append(R.Case(g, t, None, None, semspec, tag=kind))
             refs.append(ref if semspec == ('none', {}) else None)
@@ -232,6 +247,44 @@ def shard(col, shard_i, ngrammars, ninputs, exhaustive_len):
         col.sample(cases[len(cases) // 2].describe())
 
 
+def shard_reuse(col, shard_i, n):
+    """one generated parser OBJECT parses several texts in a row: seeds and memos of an earlier text must not survive into the next
+    (each call compared with a fresh parser object and with model.parse)"""
+    import tatsu
+    rng = col.rng
+
+    def outcome(run):
+        try:
+            return ('ok', E.canon(run()))
+        except tatsu.exceptions.FailedParse:
+            return ('fail', None)
+        except RecursionError:
+            return ('recursion', None)
+        except Exception as e:  # noqa
+            return ('exc', type(e).__name__)
+    for _ in range(n):
+        g, kind = G.lrec_grammar(rng)
+        cls = R.generated_parser(g)
+        m = R.compile_grammar(g)
+        if isinstance(cls, tuple) or isinstance(m, tuple):
+            continue
+        texts = G.lrec_inputs(rng, 6, maxlen=7, g=g)
+        reused = cls()
+        hist = []
+        for t in texts:
+            hist.append(t)
+            a = outcome(lambda: reused.parse(t))
+            b = outcome(lambda: cls().parse(t))
+            c = outcome(lambda: m.parse(t))
+            col.case(['reuse', E.grammar_text(g), repr(hist)], nontrivial=len(hist) > 1)
+            col.count('reuse.calls')
+            if a != b or (kind != 'named' and a != c) or a[0] != c[0]:
+                col.violation(f'oracle:reused-parser:{kind}:reused={a[0]}:fresh={b[0]}:model={c[0]}',
+                              'a generated parser object reused for another text differs from a fresh one / from the model',
+                              {'oracle': 'reused generated parser', 'grammar': E.grammar_text(g), 'history': hist, 'reused': a, 'fresh': b, 'model.parse': c})
+                break
+
+
 def main():
     chk = Check(PID)
     chk.rule = ('layered expression grammars generated from templates (direct, two-operator direct, aliased, mutual, optional-prefixed, '
@@ -247,8 +300,10 @@ def main():
     if ok:
         if chk.quick:
             vlib.run_sharded(chk, shard, 14, extra=(8, 14, 5))
+            vlib.run_sharded(chk, shard_reuse, 14, extra=(6,))
         else:
             vlib.run_sharded(chk, shard, 28, extra=(40, 30, 7))
+            vlib.run_sharded(chk, shard_reuse, 28, extra=(40,))
         chk.obligation('E1: left-recursive grammars, implementation vs model', 'correspondence',
                        not any(v['signature'].startswith(('E1lrec', 'compile')) for v in chk.violations))
         chk.obligation('left fold of the longest chain + termination (implementation vs reference)', 'oracle',
